@@ -438,10 +438,11 @@ func (e *Exec) topFuncName() string {
 
 // fail reports a definite run-time panic on the current (feasible) path and ends it.
 func (e *Exec) fail(kind, msg string) {
-	if e.S.Check() == SatRes {
+	switch e.S.Check() {
+	case SatRes:
 		e.recordViolation(kind, kind, msg, []string{e.topFuncName()})
-	} else {
-		// path condition unsat or unknown
+	case UnknownRes:
+		e.noteIncon("run-time panic (" + kind + ") on a path whose feasibility the solver could not decide")
 	}
 	panic(pathEnd{kind})
 }
